@@ -58,8 +58,10 @@ impl<'a> BatchResult<'a> {
     ) {
         let mut cols = HashMap::<String, Arc<dyn DataSource>>::default();
         let columns = self.columns.into_iter().map(Arc::new).collect::<Vec<_>>();
-        for projection in self.projection {
-            cols.insert(format!("_cs{}", projection), columns[projection].clone());
+        // `_cs<i>` names the i-th projection (see Query::normalize), not the index of its column: two projections can
+        // share one column (collect_aliased), e.g. two constant grouping columns with identical decode plans.
+        for (i, &projection) in self.projection.iter().enumerate() {
+            cols.insert(format!("_cs{}", i), columns[projection].clone());
         }
         for (i, &(aggregation, _)) in self.aggregations.iter().enumerate() {
             cols.insert(format!("_ca{}", i), columns[aggregation].clone());
